@@ -83,7 +83,18 @@ func parseRoot(t *universe.Table, f string) (string, string, bool) {
 	return n, v, ok1 && ok2
 }
 
+// resolveOn runs the resolver under the deadline; a run that hits it is repeated once
+// with a much longer one, so that a machine stalled for a second cannot turn a finishing
+// resolution into `timeout` (a genuinely non-terminating one costs 1 s + 5 s).
 func resolveOn(t *universe.Table, u *universe.NpmUniverse, rn, rv string) string {
+	res := resolveWithin(t, u, rn, rv, deadline)
+	if res == "timeout" {
+		res = resolveWithin(t, u, rn, rv, 5*deadline)
+	}
+	return res
+}
+
+func resolveWithin(t *universe.Table, u *universe.NpmUniverse, rn, rv string, deadline time.Duration) string {
 	lc := u.Client()
 	var tree []npm.VerifTreeEntry
 	ctx, cancel := context.WithTimeout(context.Background(), deadline)
